@@ -151,28 +151,31 @@ class Ctx:
             return False
         os.makedirs(os.path.join(LEAN, ".audit"), exist_ok=True)
         ok = True
-        for m in modules:
-            f = os.path.join(LEAN, ".audit", m.replace(".", "_") + ".lean")
-            with open(f, "w") as fh:
-                fh.write(f"import TLX.Audit\nimport {m}\n#audit_module {m}\n")
-            rc, out = sh(["lake", "env", "lean", f], cwd=LEAN)
-            self.checker_cmds.append(f"cd lean && lake env lean .audit/{os.path.basename(f)}")
-            count = None
-            for line in out.splitlines():
-                mm = re.match(r".*AUDIT-THEOREM (\S+) AXIOMS \[(.*)\]", line)
-                if mm:
-                    axs = [a.strip() for a in mm.group(2).split(",") if a.strip()]
-                    self.theorems[mm.group(1)] = axs
-                    bad = [a for a in axs if a not in ALLOWED_AXIOMS]
-                    if bad:
-                        ok = False
-                        self.proof_problems.append({"kind": "axioms", "theorem": mm.group(1), "axioms": bad})
-                mm = re.match(r".*AUDIT-COUNT (\S+) (\d+)", line)
-                if mm:
-                    count = int(mm.group(2))
-            if rc != 0 or count is None:
-                ok = False
-                self.proof_problems.append({"kind": "audit", "module": m, "log_tail": out.splitlines()[-20:]})
+        # one Lean process audits all modules (the import closure is loaded once)
+        tagn = hashlib.sha1(" ".join(modules).encode()).hexdigest()[:10]
+        f = os.path.join(LEAN, ".audit", f"audit_{self.pid}_{tagn}.lean")
+        with open(f, "w") as fh:
+            fh.write("import TLX.Audit\n" + "".join(f"import {m}\n" for m in modules) +
+                     "".join(f"#audit_module {m}\n" for m in modules))
+        rc, out = sh(["lake", "env", "lean", f], cwd=LEAN)
+        self.checker_cmds.append(f"cd lean && lake env lean .audit/{os.path.basename(f)}")
+        counted = set()
+        for line in out.splitlines():
+            mm = re.match(r".*AUDIT-THEOREM (\S+) AXIOMS \[(.*)\]", line)
+            if mm:
+                axs = [a.strip() for a in mm.group(2).split(",") if a.strip()]
+                self.theorems[mm.group(1)] = axs
+                bad = [a for a in axs if a not in ALLOWED_AXIOMS]
+                if bad:
+                    ok = False
+                    self.proof_problems.append({"kind": "axioms", "theorem": mm.group(1), "axioms": bad})
+            mm = re.match(r".*AUDIT-COUNT (\S+) (\d+)", line)
+            if mm:
+                counted.add(mm.group(1))
+        missing = [m for m in modules if m not in counted]
+        if rc != 0 or missing:
+            ok = False
+            self.proof_problems.append({"kind": "audit", "modules": missing or list(modules), "log_tail": out.splitlines()[-20:]})
         # forbidden tokens outside comments, in every TLX module the theorems depend on
         for m in lean_imports_closure(modules):
             path = os.path.join(LEAN, *m.split(".")) + ".lean"
